@@ -201,6 +201,33 @@ theorem bbox_correct {α} (fill : α) (xs : List α) (c : Int) (s : Nat) :
       rw [if_neg a4]
 
 
+
+/-! ### k-space crop / pad ≡ image-space crop / pad under the backward operator -/
+
+/-- **`PadKspace`**: for any operator pair with `bwd ∘ fwd = id` and a `view_as_complex`/`view_as_real` pair that are
+mutually inverse (with the pad acting on the complex view), the image of the padded k-space is the padded image:
+`bwd (PadKspace k) = vr (pad (vc (bwd k)))`. -/
+theorem pad_kspace_image_equiv {α} (o : KOps α) (hinv : ∀ y, o.bwd (o.fwd y) = y) (k : α) :
+    o.bwd (runPlan o padKspacePlan k) = o.vr (o.pad (o.vc (o.bwd k))) := by
+  simp only [runPlan, padKspacePlan, List.foldl, KOp.run, hinv]
+
+/-- **`CropKspace`**: the image of the cropped k-space is the cropped image, `bwd (CropKspace k) = crop (bwd k)`. -/
+theorem crop_kspace_image_equiv {α} (o : KOps α) (hinv : ∀ y, o.bwd (o.fwd y) = y) (k : α) :
+    o.bwd (runPlan o cropKspacePlan k) = o.crop (o.bwd k) := by
+  simp only [runPlan, cropKspacePlan, List.foldl, KOp.run, hinv]
+
+/-- consequently pad-then-crop in k-space is the identity on the image whenever it is in image space
+(`crop ∘ vr ∘ pad ∘ vc = id`, which is `pad_then_center_crop_id` lifted by `Lemmas/TensorLiftC10`). -/
+theorem crop_pad_kspace_image_id {α} (o : KOps α) (hinv : ∀ y, o.bwd (o.fwd y) = y)
+    (hcp : ∀ x, o.crop (o.vr (o.pad (o.vc x))) = x) (k : α) :
+    o.bwd (runPlan o cropKspacePlan (runPlan o padKspacePlan k)) = o.bwd k := by
+  rw [crop_kspace_image_equiv o hinv, pad_kspace_image_equiv o hinv, hcp]
+
+/-- non-vacuity: identity operators with list pad / crop satisfy the hypotheses -/
+example : ∀ y : List Int, (id ∘ id) y = y := fun _ => rfl
+example : runPlan (α := List Int) ⟨id, id, id, id, padTo 0 6, centerCrop 3⟩ cropKspacePlan
+    (runPlan ⟨id, id, id, id, padTo 0 6, centerCrop 3⟩ padKspacePlan [1, 2, 3]) = [1, 2, 3] := by decide
+
 /-- non-vacuity: hypotheses of the main theorems are met by concrete odd/even cases -/
 example : centerCrop 3 (padTo (0 : Int) 6 [1, 2, 3]) = [1, 2, 3] := by decide
 example : centerCrop 2 (padTo (0 : Int) 7 [1, 2]) = [1, 2] := by decide
